@@ -788,7 +788,7 @@ def gen_cases(ctx, im: Impl, gen: Gen):
         yield "wire-empty", wire_payload(flags), True
     yield "wire-nv", wire_payload(256, sections={"nv": b"AttachItemID STRING RW SV abc"}), True
     # every flag combination x object kind with generated contents
-    per = ctx.pick(1, 5)
+    per = ctx.pick(1, 4)
     quick_pcodes = ctx.pick(3, 9)
     domain = []
     for flags in range(ALL_FLAGS):
@@ -800,7 +800,7 @@ def gen_cases(ctx, im: Impl, gen: Gen):
                     domain.append(p)
                     yield "domain", p, True
     # mutations of well-formed payloads
-    nmut = ctx.pick(4000, 60000)
+    nmut = ctx.pick(4000, 50000)
     for _ in range(nmut):
         kind, q = mutate(rng, rng.choice(domain))
         yield "mut-" + kind, q, False
@@ -863,7 +863,7 @@ def correspond(ctx):
              "re-encoding through the template; and the extracted Coq fast_read/decl_read/decl_write on the generated template vs "
              "the real decoders (accept/reject, every field value or window, unread rest, re-encoded bytes).  Non-trivial = "
              "distinct payload accepted by the template with at least one optional section present"
-             % (ctx.pick(3, 9), ctx.pick(1, 5)))
+             % (ctx.pick(3, 9), ctx.pick(1, 4)))
     seen = set()
     cases = []
     dist = {}
@@ -883,7 +883,9 @@ def correspond(ctx):
         body = " ".join(map(str, p))
         slot[i] = len(lines)
         lines += ["f " + body, "w " + body]
-    model = ctx.run_driver(lines)
+    model = []
+    for k in range(0, len(lines), 40000):      # bounded batches: the thorough tier has several hundred thousand lines
+        model += ctx.run_driver(lines[k:k + 40000])
     nontriv = 0
     viol_seen = set()
     for i, (kind, p, domain) in enumerate(cases):
